@@ -408,6 +408,7 @@ func (w *writer) paragraph(x *wpmodel.XW, b wpmodel.Block, idx int) {
 		if outline && w.o.DirectStyled {
 			style = "BodyText"
 		}
+		num = b.Numbered
 	case wpmodel.BItem:
 		num = true
 		if w.o.ItemStyle {
